@@ -478,7 +478,7 @@ func TestVerif_C06_concurrent(t *testing.T) {
 		}
 		return
 	}
-	verifkit.RapidSetup(240, 12000)
+	verifkit.RapidSetup(240, 24000)
 	rapid.Check(t, func(rt *rapid.T) {
 		c := c06CGen().Draw(rt, "case")
 		h := verifkit.Hash(c)
